@@ -1,8 +1,9 @@
 """Per-property decision procedures."""
-import json, os, time
+import json, os, re, time
 from common import *
 import chan_l
 import chan_v
+import chan_x
 
 L_PROPS = {"C01", "C02", "C03", "C12", "C13", "C18", "C19", "C20"}
 
@@ -64,6 +65,8 @@ def decide(prop, tier, seed, replay=None):
             return decide_L(prop, tier, seed, t0, replay)
         if prop in V_PROPS:
             return decide_V(prop, tier, seed, t0, replay)
+        if prop in X_PROPS:
+            return decide_X(prop, tier, seed, t0, replay)
     print(f"unknown property {prop}")
     return 2
 
@@ -87,6 +90,89 @@ def determinism_L(seed):
         res["detail"] = f"{a[k][:200]} vs {b[k][:200]}"
         res["requests"] = req[start:end]
     return res
+
+
+X_PROPS = {"C04", "C05", "C06", "C07", "C15", "C16"}
+
+
+def run_translators():
+    rc, out, err = sh(["python3", os.path.join(VERIF, "translators", "translate.py")])
+    return rc == 0, out + err
+
+
+def read_prims():
+    """what the translated primitives say (used by the access-rule oracle)"""
+    try:
+        txt = open(os.path.join(LEAN, "TrucModel", "Generated", "Primitives.lean")).read()
+        m = re.search(r"def primWrite : Prim := ⟨(\w+), \.(\w+), \.(\w+), (\w+)⟩", txt)
+        return {"write_aligned_only": (m.group(3) == "ptrWrite") if m else True, "write": m.groups() if m else None}
+    except OSError:
+        return {"write_aligned_only": True}
+
+
+def decide_X(prop, tier, seed, t0, replay):
+    run_translators()
+    pr = proof_side(prop, tier)
+    ok, out = chan_x.build_gen()
+    if not ok:
+        path = write_replay(prop, "build", "harness does not build against /repo:\n" + out[-3000:])
+        print(f"VIOLATION property={prop} replay={path} no-failing-input-found")
+        return 1
+    # the Lean driver must exist even when the property module itself no longer builds
+    lake_build(["trucdrv"])
+    prims = read_prims()
+    info = chan_x.run(seed, tier, prims)
+    an, req = chan_x.analyse(info, prims)
+    oracle = [o for o in an["oracle"] if o["property"] == prop]
+    proof_ok = not pr["problems"]
+    tie_ok = an["n_disagree"] == 0 and not info["errors"]
+    rc = 0; violations = 0; lines = []
+
+    def history(line):
+        return "\n".join(chan_x.module_of(req, line)) if req else ""
+    if oracle:
+        o = oracle[0]
+        body = (f"# kind: implementation-vs-oracle (the compiled generated code breaks {prop}; build {o['build']}; VERIF_SEED={seed} tier={tier})\n# {o['message']}\n"
+                f"# {len(oracle)} oracle hits in this run; the requests below build the definition and run the operations up to the failing one\n" + history(o["line"]) + "\n")
+        path = write_replay(prop, "oracle", body)
+        lines.append(f"VIOLATION property={prop} replay={path}")
+        violations = len(oracle); rc = 1
+    elif not proof_ok or not tie_ok:
+        what = []
+        if not proof_ok:
+            what.append("proof obligations that no longer check: " + " | ".join(pr["problems"])[:2500])
+        body = f"# kind: model-vs-implementation / proof break, no failing input found (VERIF_SEED={seed} tier={tier})\n"
+        if not tie_ok:
+            d = an["disagreements"][0] if an["disagreements"] else None
+            what.append(f"correspondence channel X: {an['n_disagree']} operations disagree; errors: {[e[:300] for e in info['errors'][:2]]}")
+            if d:
+                what.append(f"build {d['build']} request `{d['request']}`\n#   lab  : {d['lab']}\n#   model: {d['model']}")
+        body += "# " + "\n# ".join(what) + "\n"
+        if not tie_ok and an["disagreements"]:
+            body += history(an["disagreements"][0]["line"]) + "\n"
+        path = write_replay(prop, "tie", body)
+        lines.append(f"VIOLATION property={prop} replay={path} no-failing-input-found")
+        violations = 1; rc = 1
+    cov = {
+        "obligations": pr["obligations"], "discharged": pr["discharged"],
+        "checker_cmd": f"python3 translators/translate.py && cd lean/TrucModel && lake build TrucModel.Props.{prop} && lake env lean <#print axioms of each theorem>",
+        "trusted_base": TRUSTED + ["translators/translate.py (regenerates Generated/Primitives.lean and AlignBytes.lean from the source on every run)",
+                                   "the abstract machine's reading of ptr::read/write, moves, scope-end drops, ManuallyDrop, mem::forget (modelled, validated by channel X)",
+                                   "rustc/LLVM; Rust's aliasing model beyond the write-permission rule"],
+        "theorems": pr["theorems"], "axioms": pr["axioms"], "proof_problems": pr["problems"],
+        "evaluations": an["ops"], "distinct_nontrivial": an["nontrivial"],
+        "rule": "operations = API-level calls (new/new_uninit/get/set/unpack/drop/4 conversion forms/clone/clone_from/serde round trips/placements) on generated modules compiled in 3 builds (debug+hook, release+hook, release without hook), each compared with the Lean machine's prediction (values, drop multiset, primitive-access multiset); distinct by request text; non-trivial = everything but plain constructors and reads",
+        "samples": an["samples"][:3], "traces_validated_against_impl": an["ops"], "modules": an["modules"], "ops_by_kind": an["by_op"],
+        "primitive_accesses_checked": an["accesses"], "disagreements": an["n_disagree"], "oracle_hits": len(oracle),
+        "builds": {k: {kk: vv for kk, vv in v.items() if kk != "dir"} for k, v in info["builds"].items()},
+        "translated_primitives": prims, "channel_cached": info.get("cached", False), "exhaustive": False,
+    }
+    write_evidence(prop, tier, seed, cov, ["field types' own Clone/serde impls are parameters", "drop order inside one call is not compared"], time.time() - t0, violations)
+    for l in lines:
+        print(l)
+    if rc == 0:
+        print(f"OK property={prop} theorems={pr['discharged']}/{pr['obligations']} ops={an['ops']} disagreements=0")
+    return rc
 
 
 V_PROPS = {"C08", "C09", "C10"}
